@@ -594,7 +594,10 @@ def st_bad(draw):
         st.sampled_from(["", "x", "2000-13-01", "2000-02-30T00Z", "20000102T0",
                          "2000-W54-1", "T", "P", "R", "R/", "R/2000", "R0/2000/P1D",
                          "2000-01-01T25Z", "2000-01-01T00:00+99:99", "٢٠٠٠",
-                         "2000-01-01T00:00:60Z", "PT", "P1", "1W", "R2/P1D"])))
+                         "2000-01-01T00:00:60Z", "PT", "P1", "1W", "R2/P1D",
+                         "2020-01-01T00:00T00", "2020-01-01T00:00+01+02",
+                         "2020-01-01T00:00Z+01", "2020T01T02", "P2020T00T00",
+                         "R/2020-01-01T00:00T00/P1D", "R2/2000/2001/2002"])))
     good = draw(st_arg(cm, allow_reduced=False))["text"]
     argv = list(margv)
     if slot == "point":
